@@ -3,8 +3,14 @@
 import json, subprocess, sys, os
 base = json.load(open("/root/.vp/BASELINE.json"))
 env = dict(os.environ, GOFLAGS="-mod=mod", GOPROXY="off", GOSUMDB="off", GOTOOLCHAIN="local")
+import tempfile, shutil
+src = sys.argv[1] if len(sys.argv) > 1 else "/repo"
+tmp = tempfile.mkdtemp(prefix="baseline-")
+subprocess.run("git -C %s archive HEAD | tar -x -C %s" % (src, tmp), shell=True, check=True)
+print("baseline of", subprocess.run(["git", "-C", src, "log", "--oneline", "-1"], stdout=subprocess.PIPE, text=True).stdout.strip())
 p = subprocess.run(["go", "test", "-mod=mod", "-json", "-vet=off", "-count=1", "-timeout", "25m", "./..."],
-                   cwd=sys.argv[1] if len(sys.argv) > 1 else "/repo", env=env, stdout=subprocess.PIPE, stderr=subprocess.STDOUT, text=True)
+                   cwd=tmp, env=env, stdout=subprocess.PIPE, stderr=subprocess.STDOUT, text=True)
+shutil.rmtree(tmp, ignore_errors=True)
 res = {}
 for line in p.stdout.splitlines():
     try:
